@@ -17,8 +17,11 @@ static std::vector<size_t> &entries_with_edits() {
   return v;
 }
 
-VF_ENUM(false_statement_rejected, 18 * 40, 18 * 600) {
-  size_t i = ctx.c.raw(); size_t entry = entries_with_edits()[i % entries_with_edits().size()];
+static void false_statement_case(Ctx &ctx, size_t entry);
+VF_ENUM(false_statement_rejected, 18 * 40, 18 * 600) { size_t i = ctx.c.raw(); false_statement_case(ctx, entries_with_edits()[i % entries_with_edits().size()]); }
+// the class-level plain interactive shuffle / rotation arguments (registry entries added later)
+VF_ENUM(false_statement_rejected_class_level, 2 * 40, 2 * 600) { size_t i = ctx.c.raw(); false_statement_case(ctx, REGISTRY_BASE + i % (scenario_registry().size() - REGISTRY_BASE)); }
+static void false_statement_case(Ctx &ctx, size_t entry) {
   const Entry &e = scenario_registry()[entry]; ScenarioP s = e.make(ctx);
   if (s->edits.empty()) { ctx.discard(); return; }
   // cut-and-choose accepts a false statement with probability 2^-kappa: use the edit only with kappa >= 16 there (judged in (b) for small kappa)
